@@ -108,3 +108,26 @@ Proof.
   vm_compute in E. inversion E; subst s; clear E. repeat split; try reflexivity.
   repeat constructor; unfold only_stutter; vm_compute; first [left; reflexivity | right; reflexivity].
 Qed.
+
+(* ---------------------------------------------------------------------------------------- *)
+(* The positive no-lost-wake-up statement under the guard that excludes F21 and F9: every wait
+   on the semaphore uses the same demand d.  STATED, NOT PROVED (notes/C02.md gives the
+   invariant): kept as a Definition, no theorem claims it. *)
+Definition label_uniform (d : Z) (l : label) : Prop :=
+  match l with LStart _ (OpWait c _ _) => c = d \/ c = 0 | _ => True end.
+Inductive reachable_u (d : Z) (s0 : state) : state -> Prop :=
+| ru_init : reachable_u d s0 s0
+| ru_step : forall s l s', reachable_u d s0 s -> label_uniform d l -> step s l = Some s' -> reachable_u d s0 s'.
+Definition no_pending (s : state) : Prop := forall t, t_pend (getth s t) = false.
+Definition nlw_uniform_stmt : Prop :=
+  forall d c o ths nv s, 0 < d -> 0 <= c < W64 -> reachable_u d (init c o ths nv) s ->
+    splock s = None -> no_pending s -> queue s <> [] -> m_count s < d.
+
+(* the guard is satisfiable and non-trivial: the final state of this uniform schedule has a
+   non-empty queue, splock free, nobody pending, and indeed m_count < d *)
+Example nlw_uniform_example :
+  exists s, run (init 0 false three 1)
+                (LStart 0 (OpWait 2 MAX64 false) :: adv 0 7 ++ LStart 1 (OpWait 2 MAX64 false) :: adv 1 7 ++
+                 LStart 2 (OpSignal 3) :: adv 2 17 ++ LRun 0 :: adv 0 5) = Some s /\
+            splock s = None /\ queue s = [1%nat] /\ m_count s = 1 /\ forallb (fun th => negb (t_pend th)) (threads s) = true.
+Proof. eexists. split; [vm_compute; reflexivity|]. repeat split. Qed.
